@@ -320,8 +320,9 @@ func runC11(rc *RunCtx) {
 				doomed.Services = append(append([]mSvc(nil), cfgs[v].Services...), mSvc{Listeners: []mLn{{"tcp", "127.0.0.1:9777"}}, Keys: cfgs[v].Services[0].Keys})
 				if fl, err := simnet.ListenTCP("tcp", &net.TCPAddr{IP: net.IPv4(127, 0, 0, 1).To4(), Port: 9777}); err == nil {
 					fl.Foreign = true
+					// (whether it must fail is C10's claim, not C11's)
 					if err := ms.reload(&doomed, false); err == nil {
-						rc.Failf("doomed-reload-succeeded", "a reload that needs an address held by another socket reported success")
+						rc.Probe("doomed_reload_reported_success")
 					}
 					fl.Close()
 					rc.Probe("failed_reload_between_generations")
@@ -378,8 +379,8 @@ func runC11(rc *RunCtx) {
 			}
 			dialedTarget := false
 			for _, d := range w.Dials {
-				if d.Port == 7200+i {
-					dialedTarget = true
+				if d.Port == 7200+i && d.Err == nil {
+					dialedTarget = true // (a dial cancelled while in flight is no relay yet)
 				}
 			}
 			if recs[0].first("auth") != nil && !dialedTarget {
